@@ -103,6 +103,8 @@ type Cfg struct {
 	EnforceChunkMin bool   // refuse further data once a non-final chunk below ChunkMin was sent
 	AckPlan         []int  // i-th PATCH of a session: bytes of the chunk to accept (-1 / beyond = all)
 	AckStyle        string // "202" (default) or "416"
+	MaxAccept       int    // > 0: at most this many bytes of any PATCH are accepted (reported like an AckPlan cut)
+	EmptyRange      string // Range value of a session that holds no bytes: "0-0" (default, distribution) or "0--1" (olareg)
 	Early201        bool   // answer the PATCH that completes nothing special with 201 instead of 202
 	Relocate        string // "" (absolute path), "absolute" (scheme+host), "relative", "query", "newpath"
 	RefuseMonoPut   bool   // refuse PUT with a body on a session that has no data yet
@@ -346,6 +348,13 @@ func (h *Host) errResp(status int, code, msg string) *response {
 	r.hdr.Set("Content-Type", "application/json")
 	r.body = errBody(code, msg)
 	return r
+}
+
+func (h *Host) emptyRange() string {
+	if h.Cfg.EmptyRange != "" {
+		return h.Cfg.EmptyRange
+	}
+	return "0-0"
 }
 
 // ServeHTTP implements http.Handler.
@@ -995,7 +1004,7 @@ func (h *Host) upload(ev *Event, r *http.Request, body []byte) *response {
 		resp := newResp(202)
 		resp.hdr.Set("Location", h.location(ev, id, u))
 		resp.hdr.Set("Docker-Upload-UUID", id)
-		resp.hdr.Set("Range", "0-0")
+		resp.hdr.Set("Range", h.emptyRange())
 		if h.Cfg.ChunkMin > 0 {
 			resp.hdr.Set("OCI-Chunk-Min-Length", strconv.FormatInt(h.Cfg.ChunkMin, 10))
 		}
@@ -1025,7 +1034,7 @@ func (h *Host) upload(ev *Event, r *http.Request, body []byte) *response {
 	}
 	rangeHdr := func() string {
 		if len(u.buf) == 0 {
-			return "0-0"
+			return h.emptyRange()
 		}
 		return fmt.Sprintf("0-%d", len(u.buf)-1)
 	}
@@ -1070,6 +1079,9 @@ func (h *Host) upload(ev *Event, r *http.Request, body []byte) *response {
 		accept := len(body)
 		if idx < len(h.Cfg.AckPlan) && h.Cfg.AckPlan[idx] >= 0 && h.Cfg.AckPlan[idx] < accept {
 			accept = h.Cfg.AckPlan[idx]
+		}
+		if h.Cfg.MaxAccept > 0 && accept > h.Cfg.MaxAccept {
+			accept = h.Cfg.MaxAccept
 		}
 		u.buf = append(u.buf, body[:accept]...)
 		ev.Applied = accept > 0
